@@ -248,7 +248,7 @@ fn shard(ctx: &mut ShardCtx, mode: &'static str, quick: u64, thorough: u64) {
         let nb = ctx.share(ctx.tier.pick(48, 1_500));
         let bulk_keys = lim("bulk_keys", ctx.tier.pick(3600, 9000)) as usize;
         let desc = !c10x.contains_key("bulk.descending");
-        ctx.search("c11_tree_bulk", super::c10::gen_bulk(bulk_keys, desc), nb, &|c: &super::c10::BulkCase| own(super::c10::run_bulk(c)));
+        ctx.search("c11_tree_bulk", super::c10::gen_bulk(bulk_keys, desc, c10x.keys().cloned().collect()), nb, &|c: &super::c10::BulkCase| own(super::c10::run_bulk(c)));
         let nt = ctx.share(ctx.tier.pick(3_000, 60_000));
         ctx.search("c11_tree_ops", super::c10::gen_case(200, small_only, false, cap), nt, &|c: &super::c10::TreeCase| own(super::c10::run_case(c, 1)));
     }
